@@ -83,3 +83,76 @@ Print Assumptions vdata_fault_history.
 Theorem vdata_fault_history_no_fault : forall pf ops k f, dhistory Fixed pf ops (start (Some k)) <> Fault f.
 Proof. exact vdata_fault_history_no_fault_lemma. Qed.
 Print Assumptions vdata_fault_history_no_fault.
+
+(* ------------------------------------------------------------------ the two chained hash tables
+   (coq/Mem/HashTab.v).  [s] is arbitrary in the per-call theorems, so [fail_at s] ranges over every
+   fault point of the call. *)
+Require Import LV.Mem.HashTab LV.Mem.HashTabProofs.
+
+(* vnacal_new_t parameter hash: a get / find with any fault point completes (never a fault), the
+   invariant holds afterwards (chains sorted and in their buckets, every live block owned: nothing
+   leaked), the answer is the one the stored keys dictate, and when it is ENOMEM the table is the very
+   same table and the fault has been consumed.  (A failed hash_expand inside a successful insert is
+   ignored by the code: the table keeps its size and stays consistent; the next insert tries again.) *)
+Theorem phash_fault_clean : forall op h s, PHInv h s ->
+  exists h' o s', phstep HFixed h op s = Ok ((h', o), s') /\ PHInv h' s' /\
+    ph_spec (all_keys h) op o (all_keys h') /\ (o = Err ENOMEM -> h' = h /\ fail_at s' = None).
+Proof. exact ph_fault_clean_lemma. Qed.
+Print Assumptions phash_fault_clean.
+
+(* the repeated call succeeds and stores the key *)
+Theorem phash_retry : forall h s p h' s', PHInv h s ->
+  ph_get HFixed h p s = Ok ((h', Err ENOMEM), s') ->
+  h' = h /\ exists h'' s'', ph_get HFixed h' p s' = Ok ((h'', Done), s'') /\ PHInv h'' s'' /\
+    same (all_keys h'') (Z.to_nat p :: all_keys h).
+Proof. exact ph_retry_lemma. Qed.
+Print Assumptions phash_retry.
+
+Theorem phash_fault_history : forall ops k os s',
+  phhistory HFixed ops (start (Some k)) = Ok (os, s') -> live s' = [].
+Proof. exact ph_fault_history_lemma. Qed.
+Print Assumptions phash_fault_history.
+
+Theorem phash_fault_history_no_fault : forall ops k f, phhistory HFixed ops (start (Some k)) <> Fault f.
+Proof. exact ph_fault_history_no_fault_lemma. Qed.
+Print Assumptions phash_fault_history_no_fault.
+
+(* vnaproperty map, every hash function: a set / look-up / delete / keys with any fault point completes,
+   the invariant holds afterwards, the answer is the one the insertion-order list dictates, and on
+   ENOMEM the order list and the key set are unchanged (the table may have grown: a look-up expands
+   first) and the fault has been consumed *)
+Theorem pmap_fault_clean : forall hf op m s, MInv hf m s ->
+  exists m' o ks s', mstep HFixed m (mop_of hf op) s = Ok ((m', o, ks), s') /\ MInv hf m' s' /\
+    m_spec (morder m) op o ks (morder m') /\
+    (o = Err ENOMEM -> fail_at s' = None /\ morder m' = morder m /\ same (all_keys (mtab m')) (all_keys (mtab m))).
+Proof. exact map_fault_clean_lemma. Qed.
+Print Assumptions pmap_fault_clean.
+
+Theorem pmap_retry : forall hf m s k m' s', MInv hf m s ->
+  map_subtree HFixed m true k (hf k) s = Ok ((m', Err ENOMEM), s') ->
+  MInv hf m' s' /\ morder m' = morder m /\
+  exists m'' s'', map_subtree HFixed m' true k (hf k) s' = Ok ((m'', Done), s'') /\ MInv hf m'' s'' /\
+    ((In k (morder m) /\ morder m'' = morder m) \/ (~ In k (morder m) /\ morder m'' = morder m ++ [k])).
+Proof. exact map_retry_lemma. Qed.
+Print Assumptions pmap_retry.
+
+Theorem pmap_fault_history : forall hf ops k os s',
+  mhistory HFixed (map (mop_of hf) ops) (start (Some k)) = Ok (os, s') -> live s' = [].
+Proof. exact map_fault_history_lemma. Qed.
+Print Assumptions pmap_fault_history.
+
+Theorem pmap_fault_history_no_fault : forall hf ops k f,
+  mhistory HFixed (map (mop_of hf) ops) (start (Some k)) <> Fault f.
+Proof. exact map_fault_history_no_fault_lemma. Qed.
+Print Assumptions pmap_fault_history_no_fault.
+
+(* non-vacuity of the two invariants *)
+Theorem phash_fault_inv_satisfiable : exists h s, PHInv h s /\ halloc h = 16%nat /\ hcount h = 9%nat /\
+  nth 0 (map (map nkey) (hbuckets h)) [] = [0; 16; 32]%nat.
+Proof. exact PHInv_satisfiable. Qed.
+Print Assumptions phash_fault_inv_satisfiable.
+
+Theorem pmap_fault_inv_satisfiable : exists m s, MInv hf_demo m s /\ halloc (mtab m) = 33%nat /\ hcount (mtab m) = 21%nat /\
+  nth 0 (map (map nkey) (hbuckets (mtab m))) [] = [0; 2]%nat /\ length (live s) = 44%nat.
+Proof. exact MInv_satisfiable. Qed.
+Print Assumptions pmap_fault_inv_satisfiable.
